@@ -45,6 +45,8 @@ def reader_population(n, seed, ndims=(2, 3), payloads=("random", "special", "ext
 
 def build(case, work, name="plt00010"):
     m = gen.gen_model(**case["gen"])
+    if case.get("deepen"):
+        gen.deepen(m, case["deepen"], case["gen"]["seed"])
     if case.get("zero_fine"):
         gen.zero_fine(m, case["gen"]["seed"])
     if case.get("ties"):
